@@ -55,6 +55,7 @@ theorem lifecycle_ext (U : Universe) (s : St) (ev : String) (o : Obj) (m : Mappi
   · exact .refl _ s
   · split
     · refine LogExt.trans (LogExt.of_eq ?_) (callCb_ext U _ o _ _ trivial)
+      unfold ctrlRecord
       split
       · split <;> rfl
       · rfl
